@@ -29,7 +29,10 @@ def tok_string(c, p, salt=0):
             return '-9.999e+02'
         return '%.6e' % v
     if c == 'S':
-        return ('SSTGLMC_G%03d.%04d-00.3420' % (p, salt % 10000)) if (p + salt) % 2 else 'src_%d' % p
+        # names are any text without blanks: catalogue designations, and characters that mean something elsewhere (#, %, :, +, /, quotes)
+        menu = ['SSTGLMC_G%03d.%04d-00.3420' % (p, salt % 10000), 'src_%d' % p, 'HD_163296#%d' % p, '#%d' % p, "IRAS_%d+%d/b:'c'" % (p, salt % 97),
+                '%%s{%d}' % p, 'J%02d:%02d:%02d.5-01' % (p % 24, salt % 60, p % 60), 'src_%d' % p]
+        return menu[(p + salt) % len(menu)]
     raise ValueError(c)
 
 
